@@ -503,6 +503,31 @@ ob(id="lemma.grammar-equals-rfc", props=["C01", "C02"], route="L", harness="", c
    level="P", bounds="none (finite automata constructions, complete)", functions=[], backend="spec/grammar_tool.py", rc1_is_violation=True, timeout_s=300)
 
 # ----------------------------------------------------------------------------------------------------------------
+# C17 size arithmetic of query composition with symbolic string lengths (uriEscapeEx / strlen by contract)
+for ch in ("A", "W"):
+    ob(id="ComposeSizes.%s.H" % ch, props=["C17", "C19"], route="H", harness="c17_sizes.c", char=ch,
+       group="uriComposeQueryEngine via uriComposeQueryCharsRequiredEx / uriComposeQueryEx with symbolic string lengths: chars required == worst-case sum, sufficient, written == length + 1, no write beyond maxChars, sizes beyond INT_MAX refused, no int overflow",
+       replace_bodies=[(["uriEscapeEx" + ch] + (["wcslen"] if ch == "W" else []), "compose_callees.c")],
+       defines=by_tier({"VI": 3, "VD": 24}, {"VI": 4, "VD": 40}), checks=NOPTROVF,
+       unwindset=by_tier({"uriComposeQueryEngine%s.*" % ch: 4, "cs_find.*": 9}, {"uriComposeQueryEngine%s.*" % ch: 5, "cs_find.*": 9}),
+       level="B", bounds=by_tier("<=3 items; string lengths symbolic up to 2^40 (measuring: no further bound; writing: destination blocks of 1..24 characters, exact size)",
+                                 "<=4 items; string lengths symbolic up to 2^40; writing: destination blocks of 1..40 characters"),
+       functions=["uriComposeQueryEngine" + ch, "uriComposeQueryCharsRequiredEx" + ch, "uriComposeQueryEx" + ch],
+       inlined=["uriComposeQueryEngine" + ch], stubs=["uriEscapeEx (contract stub stubs/compose_callees.c; its clauses are those of EscapeEx.A.N)", "strlen/wcslen (table stub: assumed libc contract)"],
+       timeout_s=by_tier(600, 3600), mem_gb=10)
+
+# ----------------------------------------------------------------------------------------------------------------
+# C13: incomplete manager rejected before anything is allocated, all ten manager-taking functions (loop-free => complete)
+MM_FUNCS = ["AddBaseUriExMm", "RemoveBaseUriMm", "NormalizeSyntaxExMm", "MakeOwnerMm", "FreeUriMembersMm", "ParseSingleUriExMm", "ParseUriExMm",
+            "ComposeQueryMallocExMm", "DissectQueryMallocExMm", "FreeQueryListMm"]
+for ch in ("A", "W"):
+    ob(id="ManagerEntry.%s.H" % ch, props=["C13", "C14", "C19"], route="H", harness="c22_manager.c", char=ch,
+       group="every manager-taking function x five incomplete managers: dedicated error code, no request to / release through the manager, output objects untouched (arbitrary argument contents)",
+       level="P", bounds="none (the rejected paths are loop-free; argument objects hold arbitrary bytes)",
+       functions=["uri%s%s" % (f, ch) for f in MM_FUNCS] + ["uriMemoryManagerIsComplete"], inlined=["uriMemoryManagerIsComplete"],
+       stubs=["memory manager (ledger stub with one member removed)"], covers=False, object_bits=12, timeout_s=600, mem_gb=6)
+
+# ----------------------------------------------------------------------------------------------------------------
 # thin public wrappers: which callee, once, with which arguments and defaults (loop-free => complete)
 WRAPPER_CALLEES = ["AddBaseUriExMm", "RemoveBaseUriMm", "NormalizeSyntaxExMm", "NormalizeSyntaxMaskRequiredEx", "MakeOwnerMm", "FreeUriMembersMm",
                    "ParseUriExMm", "ParseSingleUriExMm", "EscapeEx", "UnescapeInPlaceEx", "ComposeQueryEngine", "ComposeQueryMallocExMm",
@@ -538,13 +563,13 @@ QUICK = {
     "C10": [r"^Wrappers\.A", r"^RemoveBaseUri\."],
     "C11": [r"."],
     "C12": [r"^Watch\.(AddBaseUri|Readers|NormalizeMaskRequired|ComposeQuery)\.A", r"^MakeOwner\.", r"^NormalizeSyntax\.borrowed\.authority\.A", r"^EqualsUri\.A", r"^ToString\.cap\.regname\.A", r"^NormalizeMaskRequired\.authority\.A"],
-    "C13": [r"^Wrappers\.A", r"^static\.", r"^FreeUriMembersMm\.A", r"^MakeOwner\.A", r"^DissectQuery\.A", r"^uriMemoryManagerIsComplete", r"^AppendQueryItem\.A", r"^ComposeQueryMalloc\.A"],
+    "C13": [r"^Wrappers\.A", r"^ManagerEntry\.A", r"^static\.", r"^FreeUriMembersMm\.A", r"^MakeOwner\.A", r"^DissectQuery\.A", r"^uriMemoryManagerIsComplete", r"^AppendQueryItem\.A", r"^ComposeQueryMalloc\.A"],
     "C14": [r"^AddBaseUri\.A", r"^MakeOwner\.A", r"^DissectQuery\.A", r"^AppendQueryItem\.A", r"^StopSyntaxMalloc\.A", r"^PushPathSegment\.A", r"^RemoveBaseUri\.A", r"^NormalizeSyntax\.borrowed\.path\.A"],
     "C15": [r"."],
     "C16": [r"^Wrappers\.A", r"^EscapeEx\.A\.N", r"^UnescapeInPlaceEx\.A\.N", r"^EscapeEx\.corner", r"Content\.", r"^EscapeRoundTrip\.", r"^UnescapeTokens\.A"],
-    "C17": [r"^Wrappers\.A", r"^DissectQuery\.", r"^AppendQueryItem\.A", r"^ComposeQuery\.", r"^ComposeQueryMalloc\."],
+    "C17": [r"^Wrappers\.A", r"^ComposeSizes\.", r"^DissectQuery\.", r"^AppendQueryItem\.A", r"^ComposeQuery\.", r"^ComposeQueryMalloc\."],
     "C18": [r"^FilenameRoundTrip", r"^FilenameShortForms\."],
-    "C19": [r"^Wrappers\.W", r"^Marks\.Parse(UriTail|AuthorityTwo|OwnUserInfo)\.W", r"^ComposeQueryMalloc\.W", r"^EqualsUri\.W", r"^CompareRange\.W", r"^ToString\.cap\..*\.W", r"^MakeOwner\.W", r"^RemoveBaseUri\.W", r"^DissectQuery\.W", r"Content\.W", r"^EscapeRoundTrip\.W",
+    "C19": [r"^Wrappers\.W", r"^ManagerEntry\.W", r"^ComposeSizes\.W", r"^Marks\.Parse(UriTail|AuthorityTwo|OwnUserInfo)\.W", r"^ComposeQueryMalloc\.W", r"^EqualsUri\.W", r"^CompareRange\.W", r"^ToString\.cap\..*\.W", r"^MakeOwner\.W", r"^RemoveBaseUri\.W", r"^DissectQuery\.W", r"Content\.W", r"^EscapeRoundTrip\.W",
             r"^OnExitHost\.W", r"^NormalizeMaskRequired\..*\.W", r"^Dispatch\.Parse(PctEncoded|UriReference|OwnHost2|IpFuture)\.W", r"^FilenameShortForms\.W"],
     "C20": [r"^static\.", r"^Watch\..*\.A", r"^Watch\.(AddBaseUri|ComposeQuery)\.W", r"^EqualsUri\.A", r"^ToString\.cap\.regname\.A", r"^MakeOwner\.A"],
 }
